@@ -34,7 +34,10 @@ MANIFEST = {
             "double denote the same exact decimal 0.d1..dk*10^n under an independent number reader, so numbers parse back "
             "to the same value (es6_denotes, num_value_preserved, num_roundtrip); the fixed point canonicalize(json.loads(t)) = t "
             "as a theorem under named hypotheses on float parsing / shortest-digits repr (canon_reread_fixpoint; the "
-            "hypotheses are premises of the statement, not axioms); NaN/Infinity refused at any depth; strict "
+            "hypotheses are premises of the statement, not axioms; nums_double has no JInt case, so this fixed point does not "
+            "speak about values containing Python ints; a non-trivial instance of the premises is an Example); sort_deep only "
+            "reorders members at every depth (sort_deep_jperm), so json_of v is v up to member order and number text; "
+            "NaN/Infinity refused at any depth; strict "
             "order under distinct keys. Source text (Props/C16Src.v): the ast of convert2Es6Format, translated on every run "
             "into a small imperative language with an interpreter, is the pinned program, and that program computes the "
             "model function on every input, so num_es6 holds of the text itself; sort key, separators, ensure_ascii and "
